@@ -146,6 +146,22 @@ for op in hist:
         for t in ts: t.start()
         for t in ts: t.join()
         rec["pair"] = [res.get("a"), res.get("b")]
+    elif op[0] == "E":
+        # a transient resource fault in the FFT layer: the op[1]-th transform of a 3-D stack from now on raises MemoryError, once
+        import pyfftw.interfaces.numpy_fft as _nf
+        _st = {"left": int(op[1])}
+        def _wrap(orig_f):
+            def f(a, *args, **kw):
+                if np.ndim(a) == 3 and _st["left"] is not None:
+                    _st["left"] -= 1
+                    if _st["left"] <= 0:
+                        _st["left"] = None
+                        raise MemoryError("injected by the harness")
+                return orig_f(a, *args, **kw)
+            return f
+        if not hasattr(_nf, "_verif_orig"):
+            _nf._verif_orig = (_nf.fft2, _nf.ifft2)
+        _nf.fft2, _nf.ifft2 = _wrap(_nf._verif_orig[0]), _wrap(_nf._verif_orig[1])
     elif op[0] == "F":
         fft_manager.fft2(np.ones((4, 4)))
     elif op[0] == "Z":
@@ -254,7 +270,15 @@ def check_history(hist, real):
                           + [(op[1], op[2] or REQS[op[1]]["prec"], v) for op in hist if op[0] == "P" for v in op[3:5]])
     first = {}
     threads = 1
+    armed = False
     for op, rec in zip(hist, real):
+        if op[0] == "E":
+            armed = True
+            continue
+        if op[0] == "S" and armed:
+            armed = False
+            if "error" in rec and "MemoryError" in rec["error"]:
+                continue      # under the injected fault the solve may give up with the error; fields it RETURNS must be the reference fields
         if op[0] == "T":
             threads = op[1]
         if op[0] == "W":
@@ -379,6 +403,10 @@ def run(rng, tier, deep):
             f["input"] = dict(oracle="o_history", case=dict(hist=h))
             st["oracle_failures"].append(f)
     run_oracle(st, o_precision, dict())
+    # a transient MemoryError in one of the transforms of a solve, then the same solve again: whatever is returned is the reference result
+    for k in range(budget(tier, deep, 2, 8)):
+        i = [1, 0, 3, 4][k % 4]
+        run_oracle(st, o_history, dict(hist=[["S", i, None, 0], ["E", 1 + k % 2], ["S", i, None, 0], ["S", i, None, 0]]))
     for w in (["corrupt"] if tier == "quick" else ["corrupt", None]):
         run_oracle(st, o_history, dict(hist=gen_history(rng, 4), wisdom=w))
     return finish(st, "histories (length 4..12) over {solve of 6 request shapes (sizes, footprint/dispersion, analytic, single/double) and their one-argument variations (levels, level count, meas_pt, background, source, modes, halo, domain, profiles), set threads 1..8, "
